@@ -436,7 +436,7 @@ class ModelMixin2:
     # -- enumerate(start=<index>) protocol: the counter stays a valid position only while every
     #    iteration inserts exactly one node at it (DESIGN §2.3, IDX-ADVANCE)
     def loop_iter_start(self, st: State, depth, spec, count):
-        stale = [f for f in st.facts if f[0] in ('nonempty', 'emptystr') and 'each(' in f[1]]
+        stale = [f for f in st.facts if f[0] in ('nonempty', 'emptystr') and ('each(' in f[1] or 'child(' in f[1])]
         for f in stale:
             st.facts.discard(f)          # string facts about the previous generic element
         logs = dict(st.mon.get('itlog') or {})
@@ -546,6 +546,9 @@ class ModelMixin2:
         roots = []
         for sym in (st.mon.get('advsym') or {}).values():
             roots.append(sym)
+        for name, v in st.mon.items():
+            if name.startswith('ref:') and isinstance(v, int):
+                roots.append(v)
         return roots
 
     # -------------------------------------------------------- comprehensions
@@ -567,6 +570,21 @@ class ModelMixin2:
             if kind == 'dict':
                 return [((TupleV(kv) if not isinstance(kv, Raise) else kv), s2) for kv, s2 in self.ev_all([e.key, e.value], s)]
             return self.ev(e.elt, s)
+
+        first = self.ev(gens[0].iter, st)
+        exact_done = []
+        if len(gens) == 1 and kind != 'dict':
+            # a short sequence known element by element (tuple, literal list) is mapped element by element: the result is exact
+            rest = []
+            for it, s1 in first:
+                sp = None if isinstance(it, Raise) else self.iter_spec(it, s1, gens[0].iter)
+                if sp is not None and not isinstance(sp, Raise) and sp.exact is not None and len(sp.exact) <= 8:
+                    exact_done.extend(self._comp_exact(e, gens[0], sp, s1, kind, elt_eval, names, saved, saved_comp))
+                else:
+                    rest.append((it, s1))
+            first = rest
+            if not first:
+                return exact_done
 
         def joiner(states):
             """Join states that differ only in the set of element templates collected so far
@@ -591,7 +609,7 @@ class ModelMixin2:
         def run(gi, s):
             g = gens[gi]
             res = []
-            for it, s1 in self.ev(g.iter, s):
+            for it, s1 in (first if gi == 0 else self.ev(g.iter, s)):
                 if isinstance(it, Raise):
                     res.append((('raise', it.exc), s1))
                     continue
@@ -643,7 +661,7 @@ class ModelMixin2:
                 res.extend(('next', s2) for _, s2 in exits)
             return res
 
-        final = []
+        final = list(exact_done)
         for ctl, s in run(0, st):
             pend = s.frame.env.pop('%comp', TupleV(()))
             it = s.frame.env.pop('%compsrc', None)
@@ -676,6 +694,60 @@ class ModelMixin2:
             else:
                 final.append((Ref('list', sym), s))
         return final
+
+    def _comp_exact(self, e, g, sp, st: State, kind, elt_eval, names, saved, saved_comp):
+        Raise = _Raise()
+        paths = [((), st)]
+        final = []
+        for item in sp.exact:
+            nxt = []
+            for acc, s in paths:
+                for ctl, s3 in self.assign(g.target, item, s, e):
+                    if ctl != 'next':
+                        final.append((Raise(ctl[1]), s3))
+                        continue
+                    conds = [(True, s3)]
+                    for c in g.ifs:
+                        nn = []
+                        for ok, s4 in conds:
+                            nn.extend(self.cond(c, s4) if ok is True else [(ok, s4)])
+                        conds = nn
+                    for ok, s4 in conds:
+                        if isinstance(ok, Raise):
+                            final.append((ok, s4))
+                        elif not ok:
+                            self.hook('comp-skip', s4, e, gen=g)
+                            nxt.append((acc, s4))
+                        else:
+                            for v, s5 in elt_eval(s4):
+                                if isinstance(v, Raise):
+                                    final.append((v, s5))
+                                else:
+                                    self.hook('comp-yield', s5, e, value=v)
+                                    nxt.append((acc + (v,), s5))
+            paths = nxt
+            if len(paths) > 256:
+                raise AnalysisError('state explosion in an exact comprehension')
+        out = []
+        for v, s in final + [(None, s) for _, s in ()]:
+            out.append((v, s))
+        for acc, s in paths:
+            stage = 'map:' + norm(e.elt)
+            if kind == 'set':
+                items = tuple(dict.fromkeys(acc)) if all(isinstance(x, (Const, ClsV)) for x in acc) else acc
+                sym = s.new(ListE('set', 0 if len(items) != len(acc) else len(items), len(items), items=items, ordered=False, stages=('literal', stage)))
+            else:
+                sym = s.new(ListE('lit', len(acc), len(acc), items=tuple(acc), ordered=sp.ordered,
+                                  stages=('literal',) + (('filter',) if g.ifs else ()) + (stage,)))
+            out.append((Ref('list', sym), s))
+        for v, s in out:
+            s.frame.env.pop('%comp', None)
+            s.frame.env.pop('%compsrc', None)
+            for n in names:
+                s.frame.env.pop(n, None)
+            s.frame.env.update(saved)
+            s.frame.env.update(saved_comp)
+        return out
 
     def _elem_mark(self, elem, st: State) -> int:
         syms = []
@@ -787,6 +859,8 @@ class ModelMixin2:
                 for k, v in d.items:
                     if k == i:
                         return [(v, st)]
+                if d.default is not None:
+                    return [(d.default, st)]          # collections.Counter: a missing key counts 0
                 return [(self.exc('KeyError', st, node, self.describe(i, st)), st)]
             outs = []
             seen = set()
@@ -798,7 +872,9 @@ class ModelMixin2:
                     seen.add(v)
                     outs.append((v, st.copy()))
             if not d.exact and not outs:
-                outs.append((Unknown('dict value'), st.copy()))
+                outs.append((Unknown('dict value') if d.default is None else NumV(), st.copy()))
+            if d.default is not None:
+                return outs
             if ('haskey', c.sym, kk) not in st.facts:
                 s2 = st.copy()
                 outs.append((self.exc('KeyError', s2, node, f'key {self.describe(i, s2)} may be missing from the mapping'), s2))
@@ -824,7 +900,7 @@ class ModelMixin2:
             except IndexError:
                 return [(self.exc('IndexError', st, node, 'string index out of range'), st)]
         if isinstance(c, StrV) and (isinstance(i, Const) and isinstance(i.v, int) or isinstance(i, (NumV, Unknown)) or (isinstance(i, Ref) and i.kind == 'idx')):
-            if isinstance(i, Const) and i.v in (0, -1) and ('nonempty', self.vkey(c, st)) in st.facts:
+            if isinstance(i, Const) and i.v in (0, -1) and self.str_fact(st, self.vkey(c, st)) is True:
                 return [(StrV(('char',)), st)]
             s2 = st.copy()
             self.stats['forks'] += 1
